@@ -322,6 +322,26 @@ def main():
             ok = True
     add("R19.a", "flock-first", "bin/newpolicy.sh", "main starts with `%s %s %s`" % (mainc[0].text if mainc else "", mainc[1].andor if len(mainc) > 1 else "", mainc[1].text if len(mainc) > 1 else ""), ok, detail)
 
+    # ---- R19.h: the lock is never given up before the process ends
+    rule("R19.h", "The lock is held until the process exits: no command of newpolicy.sh unlocks or re-locks the lock descriptor (`flock -u`, any further `flock` on it), closes it (`N>&-`, `N<&-`) or re-opens it (`exec N...` other than the one top-level open); so everything the script does after the initial flock happens under the lock.")
+    if fd is not None:
+        bad = []
+        for c in cmds:
+            if not c.words:
+                continue
+            w0 = os.path.basename(c.words[0])
+            is_initial_flock = c.func == "main" and mainc and c is mainc[0]
+            if w0 == "flock" and not is_initial_flock:
+                if fd in c.words[1:] or any(x in ("-u", "--unlock") for x in c.words[1:]) or any(re.match(r"^-[a-z]*u", x) for x in c.words[1:]):
+                    bad.append("%s: `%s`" % (c.func, c.text))
+            for w in c.words:
+                if re.match(r"^%s[<>]&-$" % fd, w):
+                    bad.append("%s: `%s` closes the lock descriptor" % (c.func, c.text))
+            if w0 == "exec" and c.func != "<top>" and any(re.match(r"^%s(<>|<|>)" % fd, w) for w in c.words[1:]):
+                bad.append("%s: `%s` re-opens the lock descriptor" % (c.func, c.text))
+        add("R19.h", "lock-never-released", "bin/newpolicy.sh", "no unlock / close / re-open of descriptor %s after the initial flock" % fd, not bad,
+            "the lock is given up while the run continues; a second newpolicy.sh can work on the database at the same time: %s" % "; ".join(bad))
+
     # ---- R19.b / R19.e
     writers = [c for c in cmds if writes_path(c, cur)]
     add("R19.b", "floor|writers-of-current", "bin/newpolicy.sh", "%d commands write `current`" % len(writers), len(writers) >= 2, "expected at least rm and ln")
